@@ -54,8 +54,12 @@ Definition view_basic (r : list Z) : option (list Z) :=
   if arg 1 r <=? 2 then Some r else None.                   (* BasicNH enum 0..2 *)
 
 (* Common header view [nh; ht; hst; scf; offload; tcid; flags; pl; mhl; reserved] *)
+(* CommonHeader.encode_to_int ORs `reserved << 56` over the first octet as well: a header whose
+   trailing reserved octet is non-zero (never produced by a conformant sender) is re-encoded with
+   that octet smeared over NH and the reserved nibble.  Modelled as it is; wf_common demands 0. *)
 Definition raw_common (v : list Z) : list Z :=
-  [arg 0 v; 0; arg 1 v; arg 2 v; arg 3 v; arg 4 v; arg 5 v; arg 6 v; arg 7 v; arg 8 v; arg 9 v].
+  [Z.lor (arg 0 v) (arg 9 v / 16); (arg 9 v) mod 16; arg 1 v; arg 2 v; arg 3 v; arg 4 v; arg 5 v; arg 6 v;
+   arg 7 v; arg 8 v; arg 9 v].
 Definition hst_ok (ht hst : Z) : bool :=
   if (ht =? 4) || (ht =? 3) then hst <=? 2            (* GBC / GAC: circle, rect, ellipse *)
   else if (ht =? 5) || (ht =? 6) then hst <=? 1       (* TSB: SHB / multi-hop; LS: request / reply *)
@@ -136,7 +140,7 @@ Definition wf_common (v : list Z) : bool :=
   (length v =? 10)%nat && (0 <=? arg 0 v) && (arg 0 v <=? 3) && (0 <=? arg 1 v) && (arg 1 v <=? 6)
   && (0 <=? arg 2 v) && hst_ok (arg 1 v) (arg 2 v)
   && fits 1 (arg 3 v) && fits 1 (arg 4 v) && fits 6 (arg 5 v) && ((arg 6 v =? 0) || (arg 6 v =? 128))
-  && fits 16 (arg 7 v) && fits 8 (arg 8 v) && fits 8 (arg 9 v).
+  && fits 16 (arg 7 v) && fits 8 (arg 8 v) && (arg 9 v =? 0).
 Definition wf_area (v : list Z) : bool :=
   (length v =? 6)%nat && in_s 32 (arg 0 v) && in_s 32 (arg 1 v) && fits 16 (arg 2 v) && fits 16 (arg 3 v)
   && fits 16 (arg 4 v) && fits 16 (arg 5 v).
